@@ -47,7 +47,7 @@ def applicable_classes(fmt):
 def generate(ctx):
     tape = ctx.tape
     max_records = 10 if ctx.tier == "thorough" else 6
-    fd = _c01.gen_file(ctx, "", max_records, format_weights=FORMAT_WEIGHTS, lazy_choices=(None,))
+    fd = _c01.gen_file(ctx, "", max_records, format_weights=FORMAT_WEIGHTS, lazy_choices=(None,), allow_mixed_optint=True)
     fmt = T.FORMATS[fd["format"]]
     data = core.unesc(fd["data"])
     classes = applicable_classes(fmt)
